@@ -223,7 +223,7 @@ func c15Gen(seed uint64, tier string) *Plan {
 		names = append(names, ti.Name)
 	}
 	gi := Pick(rng, []Dur{47 * time.Second, 61 * time.Second, 73 * time.Second, 127 * time.Second})
-	child := &Route{Matchers: []M{{"alertname", "=", "T"}}, GroupWait: time.Second, GroupWaitSet: true, GroupInterval: gi, RepeatInterval: time.Second}
+	child := &Route{Matchers: []M{{"alertname", "=~", "T|U"}}, GroupWait: time.Second, GroupWaitSet: true, GroupInterval: gi, RepeatInterval: time.Second}
 	switch rng.Intn(3) {
 	case 0:
 		child.Mute = names[:rng.Range(1, len(names))]
@@ -244,6 +244,24 @@ func c15Gen(seed uint64, tier string) *Plan {
 	for n := rng.Range(6, 20); n > 0; n-- {
 		b.add(Action{At: rng.Dur(time.Minute, horizon-time.Second), Kind: "get_groups", Query: "muted=true"})
 	}
+	if rf := rng.Fork("flap"); rf.Bool(0.25) {
+		// A second group (alert U) that ends, is flushed empty and destroyed, and whose
+		// alert fires again exactly while the dispatcher's maintenance sweep is
+		// suspended between stopping the destroyed group and removing it: the new
+		// group's mute marker, set by its first (muted) flush, must survive the sweep.
+		cU := rf.Dur(20*time.Second, 90*time.Second).Truncate(time.Millisecond)
+		e := rf.Dur(40*time.Second, 100*time.Second).Truncate(time.Millisecond)
+		cU = b.add(Action{At: cU, Kind: "post", Alerts: []PAlert{{Labels: map[string]string{"alertname": "U", "job": "j"}, EndOff: &e}}, Str: "flap"})
+		k := (e - time.Second + gi - 1) / gi
+		tf := cU + time.Second + k*gi // the flush that finds U resolved
+		sweep := 30*time.Second + 7
+		ts := ((tf+100*time.Millisecond)/sweep + 1) * sweep // the next maintenance sweep
+		re := b.add(Action{At: ts + 20*time.Millisecond, Kind: "post", Alerts: []PAlert{{Labels: map[string]string{"alertname": "U", "job": "j"}, EndOff: &end}}, Str: "flap"})
+		p.Holds = append(p.Holds, Hold{Site: "dispatch.maint.destroyed", Match: `alertname="U"`, Delay: 2500*time.Millisecond + 3})
+		for _, d := range []Dur{1600 * time.Millisecond, 3 * time.Second, 6 * time.Second, 15 * time.Second, 40 * time.Second} {
+			b.add(Action{At: re + d, Kind: "get_groups", Query: "muted=true"})
+		}
+	}
 	p.SortActions()
 	p.Params = map[string]any{"zone": zone, "focus": f.UTC().Format(time.RFC3339), "gi": int64(gi)}
 	return p
@@ -256,10 +274,14 @@ func c15Check(p *Plan, r *RunResult) *Verdict {
 	gi := route.GroupInterval
 	// the alert was accepted at postT; its group flushes at postT+group_wait+k*gi
 	var postT Dur = -1
+	var postsU []Dur // acceptance times of alert U (first submission, re-fire)
 	for _, rec := range r.H.API {
 		if rec.Method == "POST" && rec.Code == 200 && rec.Action >= 0 && p.Actions[rec.Action].Kind == "post" {
-			postT = rec.T
-			break
+			if p.Actions[rec.Action].Str == "flap" {
+				postsU = append(postsU, rec.T)
+			} else if postT < 0 {
+				postT = rec.T
+			}
 		}
 	}
 	if postT < 0 {
@@ -267,7 +289,9 @@ func c15Check(p *Plan, r *RunResult) *Verdict {
 	}
 	arrived := map[Dur]*Notif{}
 	for _, n := range r.H.Notifs {
-		arrived[n.T] = n
+		if n.GroupLabels["alertname"] == "T" {
+			arrived[n.T] = n
+		}
 	}
 	names := func(t Dur) (bool, []string) { return m.TimeMuted(route, t) }
 	var ticks []Dur
@@ -308,10 +332,16 @@ func c15Check(p *Plan, r *RunResult) *Verdict {
 				last = t
 			}
 		}
-		if last < 0 || rec.T-last < 100*time.Millisecond {
-			continue
+		// the flapping alert's group: flush grid of its current incarnation
+		var lastU Dur = -1
+		for i := len(postsU) - 1; i >= 0; i-- {
+			if postsU[i] < rec.T {
+				for t := postsU[i] + route.GroupWait; t < rec.T; t += gi {
+					lastU = t
+				}
+				break
+			}
 		}
-		_, by := names(last)
 		var groups []struct {
 			Alerts []struct {
 				Labels map[string]string `json:"labels"`
@@ -326,10 +356,17 @@ func c15Check(p *Plan, r *RunResult) *Verdict {
 		found := false
 		for _, g := range groups {
 			for _, a := range g.Alerts {
-				if a.Labels["alertname"] != "T" {
+				lastX := last
+				if a.Labels["alertname"] == "U" {
+					lastX = lastU
+				} else {
+					found = true
+				}
+				if lastX < 0 || rec.T-lastX < 100*time.Millisecond {
 					continue
 				}
-				found = true
+				_, by := names(lastX)
+				last := lastX
 				// compared as sets: a name is repeated when several entries of one interval match
 				gs := map[string]bool{}
 				for _, x := range a.Status.MutedBy {
@@ -344,7 +381,7 @@ func c15Check(p *Plan, r *RunResult) *Verdict {
 				}
 			}
 		}
-		if !found {
+		if !found && last >= 0 && rec.T-last >= 100*time.Millisecond {
 			v.Fail("C15", "C15/group-missing-from-api", rec.T, "GET /alerts/groups?muted=true at %v does not list the group", rec.T)
 		}
 	}
